@@ -140,6 +140,7 @@ impl ast::BinOpKind {
     }
 }
 
+#[cfg_attr(kani, kani::ensures(|r: &u32| *r < 32 && (*r as i64 - x as i64) % 32 == 0))]
 fn handle_shift_rhs(x: i32) -> u32 {
     // FIXME: we would ideally warn on x out of range but it's hard to get an emitter here...
     //        (also it might warn multiple times)
@@ -299,3 +300,7 @@ fn validate_call_const_args(call: &ast::ExprCall, ctx: &CompilerContext<'_>) -> 
         Ok(())
     }).collect_with_recovery()
 }
+
+#[cfg(kani)]
+#[path = "/verif/contracts/kani/const_simplify.rs"]
+mod verif_kani;
